@@ -29,7 +29,7 @@ func init() {
 	core.RegisterMeta("C26", core.Meta{
 		Rule: "derivation calls on generated inputs (secrets 0-128 bytes, labels 0-64, seeds 0-256, contexts nil/empty/non-empty, output lengths 0..512: every value for fixed inputs per function, random elsewhere; " +
 			"every entry of both TLS<=1.2 suite tables x versions 1.0/1.1/1.2, the three TLS 1.3 suites); non-trivial = a derivation whose zcrypto output (>0 bytes, or a refusal of a reserved exporter label) was compared with the reference; " +
-			"distinct by hash of (function, parameters, inputs). End-to-end: zcrypto client vs crypto/tls server over net.Pipe, master secret from the client's key log vs the reference recomputation from the tapped wire",
+			"distinct by hash of (function, parameters, inputs). Lifetime legs with the same oracle: batches of 2..6 derivations whose returned slices (incl. the six key-block sub-slices) are held uncopied, hashed, and compared only after the later calls; 6 goroutines doing derive / Gosched / compare. End-to-end: zcrypto client vs crypto/tls server over net.Pipe, master secret from the client's key log vs the reference recomputation from the tapped wire",
 		MinNontrivial:         60000,
 		MinNontrivialThorough: 2000000,
 		Assumptions: []string{
@@ -44,6 +44,9 @@ type kdfEnv struct {
 	c        *core.Ctx
 	suites   []ztls.VerifKDFSuite
 	suites13 []ztls.VerifKDFSuite13
+	// hold, when set, defers comparisons: outputs are kept exactly as returned
+	// (not copied, hashed at once) and judged by flush() after later calls (c26_batch.go)
+	hold *[]heldOut
 }
 
 var kdfVersions = []uint16{tlskdf.VersionTLS10, tlskdf.VersionTLS11, tlskdf.VersionTLS12}
@@ -67,6 +70,10 @@ func hashHookName(h tlskdf.HashID) string {
 // cmp compares one derived value; it records the evaluation and reports a divergence.
 func (e *kdfEnv) cmp(key string, got, want []byte, input map[string]any) bool {
 	c := e.c
+	if e.hold != nil {
+		*e.hold = append(*e.hold, heldOut{key: key, got: got, n: len(got), sum: sum64(got), want: want, input: input})
+		return true
+	}
 	c.Eval(1)
 	if len(want) > 0 {
 		c.Nontrivial(key, fmt.Sprint(input))
@@ -101,6 +108,8 @@ func runC26(c *core.Ctx) {
 	for i := 0; i < n; i++ {
 		e.randomCase(rng)
 	}
+	e.batches()
+	e.concurrent()
 	e.endToEnd()
 }
 
@@ -239,6 +248,16 @@ func (e *kdfEnv) keys(s ztls.VerifKDFSuite, version uint16, master, cr, sr []byt
 	kb := p.KeyBlock(master, cr, sr, macLen, keyLen, ivLen)
 	want := [6][]byte{kb.ClientMAC, kb.ServerMAC, kb.ClientKey, kb.ServerKey, kb.ClientIV, kb.ServerIV}
 	names := [6]string{"clientMAC", "serverMAC", "clientKey", "serverKey", "clientIV", "serverIV"}
+	if e.hold != nil { // the six sub-slices of one key block, each held as returned
+		for i := range g {
+			pin := map[string]any{"part": names[i]}
+			for k, v := range in {
+				pin[k] = v
+			}
+			e.cmp("keysFromMasterSecret:"+tag+":"+names[i], g[i], want[i], pin)
+		}
+		return
+	}
 	// one evaluation; the first differing part names the violation
 	e.c.Eval(1)
 	if 2*(macLen+keyLen+ivLen) > 0 {
@@ -476,12 +495,16 @@ var phashHashes = []tlskdf.HashID{tlskdf.MD5, tlskdf.SHA1, tlskdf.SHA256, tlskdf
 // extraKDFCases are comparisons registered by optional files (c26_ems.go).
 var extraKDFCases []func(e *kdfEnv, r *rand.Rand)
 
-func (e *kdfEnv) randomCase(r *rand.Rand) {
+// kdfCaseKinds is the number of case kinds randomCaseKind understands.
+func kdfCaseKinds() int { return 17 + len(extraKDFCases) }
+
+func (e *kdfEnv) randomCase(r *rand.Rand) { e.randomCaseKind(r, r.IntN(kdfCaseKinds())) }
+
+func (e *kdfEnv) randomCaseKind(r *rand.Rand, k int) {
 	secret := rbytes(r, rlen(r, 0, 128))
 	n := rlen(r, 0, 512)
 	version := kdfVersions[r.IntN(3)]
 	id13 := e.suites13[r.IntN(len(e.suites13))].ID
-	k := r.IntN(17 + len(extraKDFCases))
 	if k >= 17 {
 		extraKDFCases[k-17](e, r)
 		return
